@@ -192,6 +192,34 @@ ANTICIPATED = ['A^i', 'A^(2*i)', 'A^0.5', 'A^-1', 'A^[1,2]', 'A^A', '2^A', 'v^2'
                'kronecker(1,1)', '0||3', '-(1||0)', '2', 'c', 'c+i', 'kronecker(1,2)+c']
 
 
+# anticipated problems whose documented class and wording are fixed (shape and argument-count diagnostics name what was received and what was expected)
+SPECIFIC = {'det(2)': ('ArgumentShapeError', 'received a scalar, expected a square matrix'), 'trace(1+1)': ('ArgumentShapeError', 'received a scalar, expected a square matrix'),
+            'det(v)': ('ArgumentShapeError', 'received a vector of length 2, expected a square matrix'), 'trace(v)': ('ArgumentShapeError', 'received a vector of length 2'),
+            'det([[1,2,3],[4,5,6]])': ('ArgumentShapeError', 'received a matrix of shape (rows: 2, cols: 3)'), 'cross(2,v)': ('ArgumentShapeError', 'received a scalar, expected a vector of length 3'),
+            'cross(v,v)': ('ArgumentShapeError', 'received a vector of length 2, expected a vector of length 3'), 'sin(v)': ('ArgumentShapeError', 'received a vector of length 2, expected a scalar'),
+            'min(v,1)': ('ArgumentShapeError', 'received a vector of length 2, expected a scalar'), 'abs(A)': ('FunctionEvalError', 'try norm(...) instead'),
+            'A^0.5': ('MathArrayError', 'non-integer powers'), 'A+1': ('MathArrayShapeError', 'Cannot add/subtract scalars to a matrix'),
+            'v*v*v': ('CalcError', 'three or more vectors is ambiguous'), 'sin(1,2)': ('ArgumentError', 'Expected 1 inputs, but received 2'),
+            'kronecker(1)': ('ArgumentError', 'Expected 2 inputs, but received 1'), 'norm(2)': ('InputTypeError', 'Expected answer to be a matrix, but input is a scalar')}
+
+
+def h_specific(E, expr):
+    """anticipated problems keep their SPECIFIC class and wording (not merely some student-facing error)"""
+    from mitxgraders import MatrixGrader
+    from mitxgraders.exceptions import MITxError
+    from mitxgraders.helpers.calc.math_array import MathArray
+    c = E.real('c', 1, 2)
+    g = MatrixGrader(answers='A*c', user_constants={'c': c, 'A': MathArray([[1.0, 2.0], [3.0, 5.0]]), 'v': MathArray([1.0, 2.0])}, samples=1, max_array_dim=2)
+    cls, fragment = SPECIFIC[expr]
+    try:
+        g(None, expr)
+        E.check('anticipated-problem-keeps-specific-class-and-message', False)
+        return 'graded'
+    except MITxError as e:
+        E.check('anticipated-problem-keeps-specific-class-and-message', type(e).__name__ == cls and fragment in str(e))
+        return type(e).__name__
+
+
 def h_anticipated(E, idx, negative_powers):
     """anticipated evaluation problems keep a SPECIFIC student-facing class and message - never the generic 'Could not check input'"""
     from mitxgraders import MatrixGrader
@@ -329,6 +357,8 @@ def harnesses(tier):
 
     def add(fn, base, params, bounds, **kw):
         hs.append(Harness(pname(base, **params), fn, tuple(params.values()), FUNCS, bounds, STUBS, **kw))
+    for expr in SPECIFIC:
+        add(h_specific, 'specific', dict(expr=expr), 'symbolic constant')
     import vchecks.c01 as c01
     for kind in c01.LIST_LENGTH_KINDS:
         for n_stu in range(1, 7):
